@@ -135,13 +135,13 @@ type AuthCall struct {
 
 // AuthAnswer describes how the fake authenticator answers one call.
 type AuthAnswer struct {
-	Status int
-	Body   string
-	Reset  bool              // drop the connection without answering
-	Hang   bool              // accept the request and never answer (until the client gives up)
-	Header map[string]string // extra response headers (e.g. Retry-After)
-	Chunked bool             // (scripted IdP only) the body is sent with chunked transfer encoding: no Content-Length is announced
-	Cut    int               // > 0 (scripted IdP only): announce the whole body's Content-Length, send only this many bytes of it, then close
+	Status  int
+	Body    string
+	Reset   bool              // drop the connection without answering
+	Hang    bool              // accept the request and never answer (until the client gives up)
+	Header  map[string]string // extra response headers (e.g. Retry-After)
+	Chunked bool              // (scripted IdP only) the body is sent with chunked transfer encoding: no Content-Length is announced
+	Cut     int               // > 0 (scripted IdP only): announce the whole body's Content-Length, send only this many bytes of it, then close
 }
 
 // FakeAuth is a scripted sso-auth back channel.
